@@ -827,34 +827,49 @@ def gen_cases(tier, rng, rng_seed=0):
     # -- count_overlap / intersect: the same pairs of sets, every listing order of both operands except both ascending ---
     for S in range(1, SMAX + 1):
         full = disjoint_sets(S, 3)
-        if S > (4 if quick else 5):
-            full = [s for s in full if len(s) <= 2]
-        if S == SMAX and quick:
+        # exhaustive up to S=4; above that the larger sets are left out: quick S=5 <= 2 intervals per set and only the
+        # reversed listings, thorough S=5 <= 5 intervals in the two sets together, S=6 <= 3 together
+        if quick and S > 5:
             continue
         for A, B in itertools.product(full, full):
+            if S > 4 and (max(len(A), len(B)) > 2 if quick else len(A) + len(B) > (5 if S == 5 else 3)):
+                continue
             for PA in listings(A):
                 for PB in listings(B):
                     if PA == A and PB == B:
+                        continue
+                    if quick and S > 4 and (PA, PB) != (A[::-1], B[::-1]):
                         continue
                     for op in ("count_overlap", "intersect"):
                         yield "pairs_permuted", {"op": op, "S": S, "A": PA, "B": PB, "listing": "permuted"}
     # -- global_intersect: any row order (chromosomes may interleave) ---------------------------------------------------
-    for s1, s2 in ([(2, 2)] if quick else [(2, 2), (3, 2)]):
+    #    (nearly every case with rows on two chromosomes fails already in ascending order - the known multi-chromosome
+    #    finding - so most of this scope has all rows on ONE of the two chromosomes of the encoding, where the function works)
+    for (s1, s2), maxn in ([((3, 2), 3)] if quick else [((3, 3), 3), ((2, 4), 2)]):
         sizes = [("chr1", s1), ("chr2", s2)]
-        names = ["chr1", "chr2"]
-        sets = [sorted_rows(s, names) for s in multisets(genome_rows(sizes), 2 if (quick or s1 > 2) else 3)
-                if s and all(disjoint([r[1:] for r in s if r[0] == n], S) for n, S in sizes)]
-        for A, B in itertools.product(sets, sets):
-            for PA in listings(A):
-                for PB in listings(B):
-                    if PA == A and PB == B:
-                        continue
+        for n, S in sizes:
+            sets = [[(n,) + iv for iv in s] for s in disjoint_sets(S, maxn) if s]
+            for A, B in itertools.product(sets, sets):
+                for PA in listings(A):
+                    for PB in listings(B):
+                        if PA != A or PB != B:
+                            yield "two_set_permuted", {"op": "global_intersect", "sizes": sizes, "A": PA, "B": PB, "listing": "permuted"}
+    sizes = [("chr1", 2), ("chr2", 2)]
+    names = ["chr1", "chr2"]
+    sets = [sorted_rows(s, names) for s in multisets(genome_rows(sizes), 2)
+            if s and all(disjoint([r[1:] for r in s if r[0] == n], S) for n, S in sizes)]
+    for A, B in itertools.product(sets, sets):
+        if len({r[0] for r in A + B}) < 2:
+            continue
+        for PA in listings(A):
+            for PB in listings(B):
+                if (PA, PB) != (A, B) and (not quick or (PA != A and PB != B)):
                     yield "two_set_permuted", {"op": "global_intersect", "sizes": sizes, "A": PA, "B": PB, "listing": "permuted"}
     # -- unique_intersect: every listing order other than the one rotation evaluated above ---------------------------------
     for S in range(1, (3 if quick else 4) + 1):
         items = intervals_of(S)
         for A in multisets(items, 2):
-            for B in multisets(items, 3 if len(A) <= 1 else 2):
+            for B in multisets(items, 3 if (len(A) <= 1 and S <= (2 if quick else 3)) else 2):
                 for PA in listings(A):
                     for PB in listings(B):
                         if PA == rotate(A) and PB == rotate(B):
@@ -862,11 +877,13 @@ def gen_cases(tier, rng, rng_seed=0):
                         yield "two_set_permuted", {"op": "unique_intersect", "S": S, "A": PA, "B": PB, "listing": "permuted"}
     # -- jaccard / forbes: intervals of a chromosome in any order ------------------------------------------------------------
     for sizes, maxn in ([([("chr1", 2)], 3), ([("chr1", 1), ("chr2", 2)], 2)] if quick else
-                        [([("chr1", 2)], 3), ([("chr1", 3)], 2), ([("chr1", 1), ("chr2", 2)], 3), ([("chr1", 2), ("chr2", 2)], 2)]):
+                        [([("chr1", 2)], 3), ([("chr1", 3)], 2), ([("chr1", 1), ("chr2", 2)], 2), ([("chr1", 2), ("chr2", 2)], 2)]):
         names = [n for n, _ in sizes]
         sets = [sorted_rows(s, names) for s in multisets(genome_rows(sizes), maxn)]
         lists = [(s, chromosome_wise_listings(s, names)) for s in sets]
         for (A, LA), (B, LB) in itertools.product(lists, lists):
+            if not A or not B:
+                continue        # an empty set has one listing only; empty sets are evaluated by the ascending cases
             # quick: both operands in their reversed listing; thorough: every pair of listings except both ascending
             for PA, PB in ([(LA[-1], LB[-1])] if quick else itertools.product(LA, LB)):
                 if (PA, PB) != (A, B):
@@ -886,7 +903,7 @@ def gen_cases(tier, rng, rng_seed=0):
     pool3s = [o for o in pool3 if o["kind"] != "sort_order" or o["order"] in (["chr2", "chr10", "chr1"], ["chr10", "chr1", "chr2"])]
     pool3s = [o for o in pool3s if o.get("key") not in (() if not quick else ("neglen", "number"))]
     for hist in itertools.product(pool3s, repeat=3):
-        for rows in ([base3, base3[::-1]] if quick else rows3[:12]):
+        for rows in ([base3, base3[::-1]] if quick else rows3[:6]):
             yield "sort_history", {"op": "sort_history", "steps": [{"rows": rotate(rows) if i == 1 else rows, "ordering": o} for i, o in enumerate(hist)]}
     names4 = ["chr1", "chr2", "chr10", "chrX"]
     base4 = base3 + [("chrX", 1, 2)]
@@ -899,7 +916,7 @@ def gen_cases(tier, rng, rng_seed=0):
     # -- sampled: larger contigs, unsorted listings and longer histories -------------------------------------------------
     import random
     prng = random.Random("C08-listings-%s" % rng_seed)
-    for i in range(300 if quick else 5000):
+    for i in range(300 if quick else 3000):
         S = prng.randint(7, 40)
 
         def shuffled_disjoint(k):
@@ -939,7 +956,10 @@ def run(tier="quick", seed=0):
                     "over 1..3 contigs x 4 ways of giving the chromosome order for sort; every pair of internally non-overlapping sets for "
                     "count_overlap/intersect/global_intersect; entry sets x interval sets for unique_intersect; pairs of sorted sets over "
                     "1..2 contigs for jaccard/forbes; every (start,stop,strand,L) for clip/extend_to_size; then seeded samples on contigs "
-                    "of 7..40 with 4..10 intervals. distinct = distinct (operation, input); non-trivial = non-empty input sets")
+                    "of 7..40 with 4..10 intervals. Then the two-set operations again on sets NOT listed in ascending order (every "
+                    "permutation of both operands) and histories of 2..4 sort_intervals calls in one process that order the same "
+                    "chromosome names differently (sort_order lists, default, key functions, StringEncoding). "
+                    "distinct = distinct (operation, input); non-trivial = non-empty input sets")
     col.bounds = {
         "intervals": "half-open [a,b), 0 <= a < b <= S; empty intervals (a == b) only for pileup/mask/extend_to_size/clip",
         "pileup/mask/bedgraph-pileup": "S=1..6, every multiset of 0..3 intervals incl. empty ones (quick: S=6 without empty intervals; "
@@ -962,7 +982,21 @@ def run(tier="quick", seed=0):
                           " and one call per row" + (" (S<=4)" if quick else ""),
         "Geometry (2 contigs)": "sizes %s: get_pileup/get_mask on every multiset of 0..3 rows%s, clip and extend_to_size on every row" %
                                 (("(1,1),(1,2),(2,1),(2,2),(3,2)", " (0..2 for (3,2))") if quick else ("(1,1),(1,2),(2,1),(2,2),(3,2),(2,3),(3,3),(1,4),(4,1)", "")),
-        "sampled": "%d seeded rounds: contig 7..40, 4..10 intervals (1..6 for the non-overlapping sets), every operation once per round" % (150 if quick else 2500)}
+        "sampled": "%d seeded rounds: contig 7..40, 4..10 intervals (1..6 for the non-overlapping sets), every operation once per round" % (150 if quick else 2500),
+        "count_overlap/intersect, unsorted listings": "every listing order of both operands (not both ascending) of the pairs above: S=1..4 all pairs; " +
+            ("S=5 sets of 0..2 intervals, both reversed" if quick else "S=5 pairs with <= 5 intervals together, S=6 with <= 3 together"),
+        "global_intersect, unsorted listings": "all rows on one contig of a 2-contig encoding, sizes %s, non-overlapping sets of 1..%s rows, every listing order; "
+            "rows on both contigs: sizes (2,2), 1..2 rows per set, %s" % (("(3,2)", 3, "both listings reversed") if quick else ("(3,3),(2,4)", "3 (2 for (2,4))", "every listing order")),
+        "unique_intersect, every listing order": "S=1..%d, entry multisets of 0..2 x interval multisets of 0..2 (0..3 with <= 1 entry and S<=%d): every listing "
+            "order of both other than the rotation used above" % ((3, 2) if quick else (4, 3)),
+        "jaccard/forbes, unsorted listings": ("1 contig S=2 (1..3 intervals per set), 2 contigs (1,2) (1..2): both sets in their reversed listing" if quick else
+            "1 contig S=2 (1..3 intervals per set), S=3 (1..2), 2 contigs (1,2),(2,2) (1..2): every pair of listings that keeps a contig's rows together"),
+        "sort histories": "names chr1,chr2,chr10 (one row each, 2..3 rows%s): every ordered pair of 14 orderings (default, the 6 sort_order lists, key "
+            "functions natural/neglen/reversed/number/constant/human_key_func, StringEncoding), second call on the same or a changed row list; "
+            "every triple of %d orderings; names chr1,chr2,chr10,chrX: every ordered pair of %d orderings (%s sort_order lists)" %
+            (("", 8, 13, "4 of the 24") if quick else (" + rows sharing a contig", 10, 33, "all 24")),
+        "sampled, unsorted listings and histories": "%d seeded rounds: contig 7..40, shuffled non-overlapping sets of 1..7 intervals for count_overlap/intersect; "
+            "a history of 2..4 sort calls on 4..10 random rows over 4 names with random orderings" % (300 if quick else 3000)}
     # wall-clock allotment (seconds) of each section, counted from the section's own start, so that a slow section
     # (slow machine, or a fault that makes every call raise) cannot starve the later ones.  Typical use is about
     # half of it (quick ~35 s, thorough ~6 min); the sum is the worst case.
